@@ -24,6 +24,9 @@ class StackFrame:
 class LoopFrame(StackFrame):
     def __init__(self, parent):
         super().__init__(parent)
+        # A loop does not start a new scope: the enclosing routine's parameters
+        # remain its parameters inside the loop.
+        self.params = parent.params
         self._loop_var = {}
 
     def get_loop_var(self, index):
